@@ -312,12 +312,15 @@ impl BitMask {
             self.lsb(reg_byte_len, endianness),
             self.msb(reg_byte_len, endianness),
         );
-        let res = (reg_value & mask) >> lsb;
+        // Shift as unsigned integers: an arithmetic shift would smear bit 63 over the result
+        // when the field contains the most significant bit of a 64 bit register.
+        let res = (((reg_value & mask) as u64) >> lsb) as i64;
+        let field_mask = ((mask as u64) >> lsb) as i64;
 
         match sign {
             Sign::Signed if res >> (msb - lsb) == 1 => {
                 // Do sign extension.
-                res | ((-1) ^ (mask >> lsb))
+                res | ((-1) ^ field_mask)
             }
             _ => res,
         }
